@@ -195,10 +195,10 @@ func (e *Engine) intOp(op token.Token, ti tinfo, ti2 tinfo, a, b Sc) Sc {
 		}
 		return bin("bvsub")
 	case token.MUL:
-		if (b.t == nil && b.c == 1) {
+		if b.t == nil && b.c == 1 {
 			return a
 		}
-		if (a.t == nil && a.c == 1) {
+		if a.t == nil && a.c == 1 {
 			return b
 		}
 		return bin("bvmul")
